@@ -29,9 +29,11 @@
                             'g_it_mid <= C19_POFF(path) && C19_POFF(path) <= g_T',
                             '(g_it_mid <= g_it_k && g_it_k < C19_POFF(path)) ==> C19_PSKIP(g_base, g_it_k)'],
              'decreases': 'g_T - C19_POFF(path)'}],
+ 'fallback': 'ghost-free',
  'witness': {'unwind': 9},
 } @*/
 #include "c19_path_contracts.h"
+#include "c19_path_ref.h"
 size_t g_T, g_off0;          /* absolute offset of the terminator / of p */
 const char *g_p0, *g_base;   /* p / start of its object */
 #include <igris/util/pathops.h>
@@ -54,7 +56,15 @@ void harness(void)
 
     const char *r = path_iterate(p);
 
+#if !VC_FALLBACK
     __CPROVER_assert(C19_IT_POST(r, p), "path_iterate: contract clause C19_IT_POST (leave the current node, skip separators and single dots)");
     __CPROVER_assert(C19_IT_POST_LIGHT(r, p), "path_iterate: contract clause C19_IT_POST_LIGHT (NULL iff empty, strict progress inside the string, never stops on a slash)");
+#endif
+#if defined(WITNESS_MODE) && KF_C19_path_single_dot_overread == 0
+    {
+        size_t ri = c19_ref_iterate(p);
+        __CPROVER_assert(ri == (size_t)-1 ? r == NULL : r == p + ri, "path_iterate: next node of the component-wise reference (direct reference)");
+    }
+#endif
     CANARY("path_iterate end reachable");
 }
